@@ -245,8 +245,8 @@ func ruleNodeLayer(c *Ctx) {
 	for _, k := range m.Kinds {
 		c.r.ok("R24", "pool "+k.Name+" allocates "+k.Struct.Obj().Name(), "pool.go", "New returns the layout of its index", "C12")
 	}
-	c.r.floor("R24", 7*4+4, "pool typestate", "C12")
-	c.r.floor("R21", 6*3, "header copies", "C11")
+	c.r.floor("R24", 20, "pool typestate", "C12")
+	c.r.floor("R21", 9, "header copies", "C11")
 
 	// ------------------------------------------------------------------ R22 CAPACITY
 	type thr struct {
@@ -335,7 +335,7 @@ func ruleNodeLayer(c *Ctx) {
 			c.r.ok("R22", key, m.pos(t.pos), fmt.Sprintf("threshold %d ≤ capacity %d and below its grow threshold", t.shrink, t.lower.Cap), "C11", "C10", "C01")
 		}
 	}
-	c.r.floor("R22", 3+3, "capacity constants", "C11")
+	c.r.floor("R22", 3, "capacity constants", "C11")
 
 	// ------------------------------------------------------------------ R23 NODEWRITERS + R25 TREESTATE
 	treeStruct := map[*types.TypeName]*TreeKind{}
@@ -559,5 +559,5 @@ func ruleNodeLayer(c *Ctx) {
 			c.r.bad("R30", key, written, "package-level mutable state shared by all trees without synchronisation", props...)
 		}
 	}
-	c.r.floor("R30", 2, "package variables", "C16")
+	c.r.floor("R30", 1, "package variables", "C16")
 }
